@@ -395,5 +395,7 @@ def run(ctx):
     from . import c02
     from .common import shared
 
+    from . import c01 as _c01
+    shared(ctx, "C10.d", _c01.rule_b, why="transformation-based corrections with neutral parameters return the input only if CoordinateSystem.coordinate / voxel are mutually inverse in every dimension")
     shared(ctx, "C10.c", c02.rule_c, why="the per-slice loop of the correction workflow runs over image.time_num")
     shared(ctx, "C10.c", c02.rule_d, why="the per-slice loop of the correction workflow runs over image.time_num")
